@@ -51,7 +51,7 @@ def cfg(nt, nr, maxw, minw, red, nimg, maximg, newest=True, emit=True, live=Fals
 
 # (NTitles, NRevids, MaxWrites, MinWrites, MaxRedirects, NImages, MaxImages)
 QUICK_PLANS = [(2, 3, 3, 0, 1, 2, 1), (1, 3, 4, 4, 0, 1, 0)]
-THOROUGH_PLANS = [(4, 3, 3, 0, 2, 3, 2), (2, 3, 4, 4, 0, 2, 0), (1, 4, 5, 5, 0, 1, 0)]
+THOROUGH_PLANS = [(3, 3, 3, 0, 2, 3, 2), (2, 3, 4, 4, 0, 2, 0), (1, 4, 5, 5, 0, 1, 0)]
 QUICK_SIM = dict(consts=(4, 4, 6, 4, 2, 3, 2), num=100, depth=16)      # num is per TLC worker
 THOROUGH_SIM = dict(consts=(4, 5, 8, 5, 2, 3, 2), num=1500, depth=20)
 
